@@ -58,7 +58,8 @@ from .values import (
 
 
 class LoopSpec:
-    def __init__(self, invariants=(), decreases=None, shapes=None, modifies=(), unroll=False, abstract=False):
+    def __init__(self, invariants=(), decreases=None, shapes=None, modifies=(), unroll=False, abstract=False, steps=()):
+        self.steps = list(steps)  # [(name, fn(E))] proved at the end of every iteration; E.head = state at the iteration's start
         self.abstract = abstract  # havoc the loop's write set and skip its body (body NOT verified; reported in the evidence)
         self.invariants = list(invariants)  # [(name, fn(E))]
         self.decreases = decreases  # fn(E) -> Int term, must decrease and stay >= 0
@@ -752,14 +753,7 @@ class Exec:
                 return a
             if a.v is b.v:
                 return a
-            sa, sb = a.as_seq(), b.as_seq()
-            la, lb = sa.length, sb.length
-            if isinstance(la, int) and isinstance(lb, int) and la == lb:
-                ln = la
-            else:
-                ln = z3.If(c, to_z3(la), to_z3(lb))
-            a.v = Seq(ln, lambda i, sa=sa, sb=sb: _ite_lazy(c, lambda: sa.get(i), lambda: sb.get(i)), np=a.np)
-            return a
+            raise _NoMerge()  # lists that evolved differently in the two arms: keep the paths apart
         if isinstance(a, PyDict) and isinstance(b, PyDict) and list(a.d) == list(b.d):
             memo[key] = a
             for k in a.d:
@@ -1121,6 +1115,7 @@ class Exec:
         if spec.decreases is not None:
             dec0 = spec.decreases(SpecEnv(s_b.env, old=s_b.roots.get("old"), extra=pre))
         s_b.trace.append(f"{line}B")
+        head_env = _clone(dict(s_b.env), {}) if spec.steps else None
         if self.feasible(s_b.pc):
             # cover: the loop body must be reachable under the invariant (else the invariant is vacuous)
             self.obls.append(Obl(f"{fq}/inv{ordinal}/body-reachable", list(s_b.pc), None, "cover", self.fn_stack[0][0], line, pathid(s_b)))
@@ -1132,6 +1127,10 @@ class Exec:
                             bind_target(s2, s2.env[kname], False)
                         except VCError:
                             pass
+                    if spec.steps:
+                        Es = SpecEnv(s2.env, old=s2.roots.get("old"), extra={**pre, "head": _PreEnv(head_env)})
+                        for sname, sfn in spec.steps:
+                            self.prove(s2, f"{fq}/step{ordinal}/{sname}", self._spec_bool(sfn(Es), f"step {sname}"), "step", line)
                     self._check_inv(s2, spec, ordinal, "preserved", line, pre)
                     if spec.decreases is not None:
                         dec1 = spec.decreases(SpecEnv(s2.env, old=s2.roots.get("old"), extra=pre))
